@@ -1,0 +1,16 @@
+//go:build verif
+
+package state
+
+// Contracts for state tracking primitives. Comment-only file: compiled only
+// under the "verif" build tag, contains no code. The "//@" lines are read by
+// /verif/govc.
+
+// Strobing a coalescer is observable only through the ghost counter strobes
+// (trusted: the body is a channel send, which the verifier does not model as
+// an event).
+//@ ghost strobes map[int]int counter
+//@ func (*Coalescer).Strobe
+//@   opaque
+//@   modifies strobes[c]
+//@   ensures strobes[c] == old(strobes[c]) + 1
